@@ -241,16 +241,43 @@ def query(db, text, params=()):
         t = peek()
         return t[0] == "id" and t[1].upper() == word
 
+    def aliased():
+        e_ = expr_ast()
+        if kw("AS"):
+            take()
+            return ("as", take("id")[1], e_)
+        return e_
+
+    def compound():
+        parts = [select()]
+        dedupe = False
+        while kw("UNION"):
+            take()
+            if kw("ALL"):
+                take()
+            else:
+                dedupe = True
+            parts.append(select())
+        return parts[0] if len(parts) == 1 else ("compound", parts, dedupe)
+
     def select():
         take("id", "SELECT")
-        exprs = [expr_ast()]
+        exprs = [aliased()]
         while peek() == ("op", ","):
             take()
-            exprs.append(expr_ast())
+            exprs.append(aliased())
         table, cond = None, None
         if kw("FROM"):
             take()
-            table = take("id")[1]
+            if peek() == ("op", "("):
+                take()
+                table = ("derived", compound())
+                take("op", ")")
+                if kw("AS"):
+                    take()
+                    take("id")
+            else:
+                table = take("id")[1]
             if kw("WHERE"):
                 take()
                 col = take("id")[1]
@@ -306,9 +333,13 @@ def query(db, text, params=()):
         raise SqlUnsupported("expression at token %d of %r" % (pos[0], text))
 
     def has_agg(e):
+        if e[0] == "as":
+            return has_agg(e[2])
         return e[0] == "call" and ((e[1] in ("max", "min") and len(e[2]) == 1) or e[1] == "count" or any(has_agg(a) for a in e[2]))
 
     def ev(e, row, rows):
+        if e[0] == "as":
+            return ev(e[2], row, rows)
         if e[0] == "lit":
             return e[1]
         if e[0] == "col":
@@ -337,17 +368,42 @@ def query(db, text, params=()):
                 return None
         raise SqlUnsupported(str(e))
 
+    def names_of(s_):
+        if s_[0] == "compound":
+            return names_of(s_[1][0])
+        return [e[1] if e[0] in ("as", "col") else "#%d" % i for i, e in enumerate(s_[1])]
+
     def run(s_):
+        if s_[0] == "compound":
+            out = []
+            for part in s_[1]:
+                got = run(part)
+                if got and out and len(got[0]) != len(out[0]):
+                    raise SqlUnsupported("UNION of different widths")
+                out += got
+            if s_[2]:
+                seen_, ded = set(), []
+                for r_ in out:
+                    if r_ not in seen_:
+                        seen_.add(r_)
+                        ded.append(r_)
+                out = ded
+            return out
         _k, exprs, table, cond = s_
         if table is None:
             return [tuple(ev(e, None, None) for e in exprs)]
-        if table not in db:
+        if isinstance(table, tuple):
+            cols = names_of(table[1])
+            source = [dict(zip(cols, r_)) for r_ in run(table[1])]
+        elif table not in db:
             raise SqlUnsupported("table %s" % table)
-        rows = [r for r in db[table] if cond is None or r.get(cond[0]) == cond[1]]
+        else:
+            source = db[table]
+        rows = [r for r in source if cond is None or r.get(cond[0]) == cond[1]]
         if any(has_agg(e) for e in exprs):
             return [tuple(ev(e, None, rows) for e in exprs)]
         return [tuple(ev(e, r, rows) for e in exprs) for r in rows]
-    s0 = select()
+    s0 = compound()
     if pos[0] != len(toks):
         raise SqlUnsupported("trailing tokens in %r" % text)
     return run(s0)
